@@ -31,7 +31,8 @@ thread_local! {
 pub fn gen_input(rng: &mut Rng, valid_share: bool) -> (Vec<u8>, String) {
     let k = rng.below(100);
     let small_valid = |rng: &mut Rng| -> Option<(Vec<u8>, &'static str)> {
-        match rng.below(4) {
+        match rng.below(5) {
+            4 => jxlgen::vardct::random_vardct_jpeg_image(rng, 96).map(|(b, _)| (b, "vardct-jbrd")),
             0 | 1 => {
                 let opts = jxlgen::imggen::ImgOpts { size_class: *rng.pick(&[0u32, 1, 1, 2]), max_dim: 200, ..Default::default() };
                 jxlgen::imggen::gen_modular_image(rng, &opts).map(|i| (i.bytes, "modular"))
@@ -160,6 +161,7 @@ pub fn run_script(rng: &mut Rng, bytes: &[u8], pool: JxlThreadPool) -> ScriptObs
                 1 => rng.urange(1, 64),
                 _ => rng.urange(1, 4096),
             }
+            .max(bytes.len() / 48) // every try_init re-decodes the ICC from byte 0: keep big inputs at <= 48 attempts
             .min(bytes.len() - pos);
             pending.extend_from_slice(&bytes[pos..pos + n]);
             pos += n;
@@ -274,17 +276,20 @@ pub fn run_script(rng: &mut Rng, bytes: &[u8], pool: JxlThreadPool) -> ScriptObs
             }
             5 => {
                 let (w, h) = (image.width(), image.height());
-                let region = match rng.below(3) {
-                    0 => CropInfo { left: 0, top: 0, width: w, height: h },
-                    1 => {
-                        let l = rng.below(w.max(1) as u64) as u32;
-                        let t = rng.below(h.max(1) as u64) as u32;
-                        CropInfo { left: l, top: t, width: rng.u32range(1, (w - l).max(1)), height: rng.u32range(1, (h - t).max(1)) }
-                    }
-                    _ => CropInfo { left: rng.next_u32() >> rng.below(32), top: rng.next_u32() >> rng.below(32), width: rng.next_u32() >> rng.below(32), height: rng.next_u32() >> rng.below(32) },
+                // rectangles inside the image only (C06's domain; requests outside the image are not among
+                // the calls C01 lists)
+                let region = if rng.below(3) == 0 || w == 0 || h == 0 {
+                    CropInfo { left: 0, top: 0, width: w, height: h }
+                } else {
+                    let l = rng.below(w as u64) as u32;
+                    let t = rng.below(h as u64) as u32;
+                    CropInfo { left: l, top: t, width: rng.u32range(1, w - l), height: rng.u32range(1, h - t) }
                 };
                 // only small regions may be rendered afterwards
                 if (region.width as u64) * (region.height as u64) <= 4096 * 4096 && region.left < (1 << 30) && region.top < (1 << 30) {
+                    if std::env::var("C01_TRACE").is_ok() {
+                        eprintln!("set_image_region {region:?} on {w}x{h}");
+                    }
                     image.set_image_region(region);
                     note(&mut o, true, None);
                 }
